@@ -596,6 +596,7 @@ type mctx struct {
 	w       *world
 	lenient bool // the real operation succeeded: "either" values count as accepted
 	ideal   bool // validate completely before changing anything (vs. the clear-then-fill order)
+	either  func(what string, accepted bool) // told about every "either" decision (statistics)
 }
 
 func elemDyn(e mElem) dyn {
@@ -665,6 +666,9 @@ func (c *mctx) convertElem(fd protoreflect.FieldDescriptor, d dyn) (mElem, error
 		return mElem{}, mfail("class %c value for a message slot", d.c)
 	}
 	canon, v := specScalar(fd, d)
+	if v == either && c.either != nil {
+		c.either(fmt.Sprintf("%s<-%c", fd.Kind(), d.c), c.lenient)
+	}
 	if v == accept || (v == either && c.lenient) {
 		return mElem{sc: canon}, nil
 	}
